@@ -114,3 +114,40 @@ def scan(prog):
             bad = [(g, fresh_getter(g)[1]) for g in cands if not fresh_getter(g)[0]]
             out.append((f, mod, s.value.attr, cands, not bad, f"`{src(s)}` then `{src(mod)[:50]}`; getters: {', '.join(g.short for g in cands)}" + (f"; {bad[0][0].short} does not hand out a fresh object: {bad[0][1]}" if bad else "")))
     return out
+
+
+_FIX_BAD = """
+class S:
+    @property
+    def w(self):
+        v = getattr(self, "_w", None)
+        if v is None:
+            v = compute(self.a)
+            self._w = v
+        return v
+
+    @property
+    def n(self):
+        p = self.w
+        p -= norm(p)
+        return f(p)
+"""
+_FIX_GOOD = _FIX_BAD.replace("            self._w = v\n", "").replace('v = getattr(self, "_w", None)\n        if v is None:\n            v = compute(self.a)', "v = compute(self.a)")
+
+
+def self_check():
+    import os, tempfile
+    from ..pm import Program
+    res = []
+    for text in (_FIX_BAD, _FIX_GOOD):
+        tree = ast.parse(text)
+        cls = tree.body[0]
+        getters = {f.name: f for f in cls.body if isinstance(f, ast.FunctionDef)}
+
+        class G:  # minimal stand-in for FunctionInfo
+            def __init__(self, node):
+                self.node = node
+        ok, _ = fresh_getter(G(getters["w"]))
+        mod = _modified_in_place(getters["n"], "p")
+        res.append((ok, mod is not None))
+    return res == [(False, True), (True, True)]
